@@ -129,10 +129,10 @@ int sim_fork_run(void (*fn)(void *), void *arg) {
   fflush(stdout); fflush(stderr);
   pid_t p = fork();
   if (p < 0) return -1;
-  if (p == 0) { fn(arg); _exit(0); }
+  if (p == 0) { uint64_t f0 = g_stats.fired; fn(arg); _exit(g_stats.fired > f0 ? SIMVFS_FIRED_EXIT : 0); }
   int st = 0;
   while (waitpid(p, &st, 0) < 0) {}
-  if (WIFEXITED(st)) { int c = WEXITSTATUS(st); return c == 0 ? 0 : (c == SIMVFS_KILL_EXIT ? SIMVFS_KILL_EXIT : 1000 + c); }
+  if (WIFEXITED(st)) { int c = WEXITSTATUS(st); return c == 0 ? 0 : (c == SIMVFS_KILL_EXIT || c == SIMVFS_FIRED_EXIT ? c : 1000 + c); }
   if (WIFSIGNALED(st)) return 2000 + WTERMSIG(st);
   return -1;
 }
